@@ -5,6 +5,7 @@ import OmplModel.Model.Vana
 import OmplModel.Model.VanaOwen
 import OmplModel.Model.Motion
 import OmplModel.Model.CarAlias
+import OmplModel.Model.RSOrbit
 import OmplModel.Driver.Common
 /-! Line-protocol driver for the Dubins model.
 Header `dubins rho=<bits> sym=<0|1> lo=<bits> hi=<bits>` (the bounds are set on the real space only;
@@ -387,6 +388,20 @@ def stepDint (st : St) (ts : List String) : St × String :=
       let (tau, om) := OmplModel.RS.tauOmega u v xi eta phi
       (st, joinSp [floatBits tau, floatBits om])
     | _, _, _ => (st, "bad-op")
+  | ["rsclos", x, y, p] =>
+    -- model only: the shortest of the 20 closure images the C++ omits (`Model/RSOrbit.lean : missing`) against `reedsShepp`, at the coded
+    -- ZERO and at the tolerant ZERO = 1e-9 (`rsFix67w`), so that acceptance-threshold events (F67 family) can be told from incompleteness
+    match f3? x y p with
+    | some (x, y, p) =>
+      let minLen (l : List (OmplModel.RS.Cand Float)) : Option Float :=
+        l.foldl (fun acc c => match c with
+          | some (_, q) => (match acc with | none => some q.len | some m => if q.len < m then some q.len else some m)
+          | none => acc) none
+      (st, "miss=" ++ optBits (minLen (OmplModel.RS.missing x y p)) ++
+        " rs=" ++ optBits ((OmplModel.RS.reedsShepp x y p).map (·.len)) ++
+        " missw=" ++ optBits (minLen (@OmplModel.RS.missing Float OmplModel.RS.rsFix67w x y p)) ++
+        " rsw=" ++ optBits ((@OmplModel.RS.reedsShepp Float OmplModel.RS.rsFix67w x y p).map (·.len)))
+    | none => (st, "bad-op")
   | ["dword", w, d, a, b] =>
     match word? w, f3? d a b with
     | some w, some (d, a, b) => (st, showOpt (solve mod2pi w d a b))
